@@ -22,16 +22,19 @@ Proof.
   rewrite <- set_contains_in. destruct (set_contains s r); split; congruence.
 Qed.
 
+Lemma NoDup_snoc {X} (l : list X) a : NoDup l -> ~ In a l -> NoDup (l ++ [a]).
+Proof.
+  induction l as [|x l IH]; cbn; intros H Hn.
+  - constructor; [intros [] | constructor].
+  - inversion H as [|? ? Hx Hl]; subst. constructor.
+    + intros Hin. apply in_app_or in Hin as [Hin|[<-|[]]]; [contradiction|]. apply Hn. left. reflexivity.
+    + apply IH; [exact Hl|]. intros Hin. apply Hn. right. exact Hin.
+Qed.
+
 Lemma nodup_insert s r : nodup_vals s -> nodup_vals (set_insert s r).
 Proof.
   unfold set_insert, nodup_vals. intros H. destruct (set_contains s r) eqn:E; [exact H|].
-  rewrite map_app. cbn. apply set_contains_false in E.
-  apply NoDup_remove_inv with (l := map r_value s) (l' := []) (a := r_value r) in H as H'.
-  - rewrite app_nil_r in H'. clear H'.
-    apply (NoDup_Add (a := r_value r) (l := map r_value s)).
-    + clear. induction (map r_value s) as [|x l IH]; cbn; constructor. exact IH.
-    + split; assumption.
-  - rewrite app_nil_r. exact H.
+  rewrite map_app. cbn. apply set_contains_false in E. apply NoDup_snoc; assumption.
 Qed.
 
 Lemma nodup_extend rs : forall s, nodup_vals s -> nodup_vals (set_extend s rs).
@@ -171,15 +174,15 @@ Qed.
 Lemma step_coherent d w o w' r : coherent d w -> step w o = Done (w', r) -> coherent (d_next d o) w'.
 Proof.
   intros Hc H. pose proof Hc as [Hn Hb]. destruct o; cbn in H.
-  - inversion H; subst. split; cbn; [apply nodup_insert, Hn | exact I].
-  - inversion H; subst. split; cbn; [apply nodup_extend, Hn | exact I].
-  - inversion H; subst. split; cbn; [apply nodup_filter, Hn | exact I].
-  - inversion H; subst. split; cbn; [apply nodup_filter, Hn | exact I].
+  - inversion H; subst. split; cbn; [apply nodup_insert, Hn | exact Logic.I].
+  - inversion H; subst. split; cbn; [apply nodup_extend, Hn | exact Logic.I].
+  - inversion H; subst. split; cbn; [apply nodup_filter, Hn | exact Logic.I].
+  - inversion H; subst. split; cbn; [apply nodup_filter, Hn | exact Logic.I].
   - inversion H; subst. unfold set_async. destruct (l_sync B (w_loc B w)) eqn:S.
-    + split; cbn; [exact Hn | exact I].
+    + split; cbn; [exact Hn | exact Logic.I].
     + destruct w as [l ls c p]. cbn in *. destruct l. exact Hc.
-  - inversion H; subst. split; cbn; [exact Hn | exact I].
-  - inversion H; subst. split; cbn; [exact Hn|]. destruct (l_bundles B (w_loc B w)); [|exact I].
+  - inversion H; subst. split; cbn; [exact Hn | exact Logic.I].
+  - inversion H; subst. split; cbn; [exact Hn|]. destruct (l_bundles B (w_loc B w)); [|exact Logic.I].
     destruct Hb as [Hs [ls0 [Hnth [Hi _]]]]. split; [exact Hs|]. exists ls0. repeat split; try assumption. discriminate.
   - unfold prefetch_sync in H. destruct (Localization.get_bundles B gen w) as [b w1] eqn:G.
     destruct (bs_sync B b); cbn in H; [|discriminate]. inversion H; subst.
@@ -209,11 +212,11 @@ Qed.
 Lemma step_result_logged d w o w' r : coherent d w -> step w o = Done (w', r) ->
   match r with RBundles _ b => logged (w_calls B w') b | _ => True end.
 Proof.
-  intros Hc H. destruct o; cbn in H; try (inversion H; subst; exact I).
-  - unfold remove_resource_id in H. inversion H. exact I.
-  - unfold remove_resource_ids in H. inversion H. exact I.
-  - destruct (prefetch_sync B gen w); cbn in H; inversion H. exact I.
-  - destruct (prefetch_async B gen w); cbn in H; inversion H. exact I.
+  intros Hc H. destruct o; cbn in H.
+  all: try (inversion H; subst; exact Logic.I).
+  all: try (unfold remove_resource_id, remove_resource_ids in H; inversion H; subst; exact Logic.I).
+  - destruct (prefetch_sync B gen w); cbn in H; try discriminate. inversion H; subst. exact Logic.I.
+  - destruct (prefetch_async B gen w); cbn in H; try discriminate. inversion H; subst. exact Logic.I.
   - destruct (Localization.get_bundles B gen w) as [b w1] eqn:G. inversion H; subst.
     eapply coherent_logged; [exact (get_bundles_coherent d w b w' Hc G) | exact (get_bundles_cell w b w' G)].
 Qed.
@@ -222,9 +225,9 @@ Qed.
 Lemma run_cons w o ops w' rs : run w (o :: ops) = Done (w', rs) ->
   exists w1 r rs', step w o = Done (w1, r) /\ run w1 ops = Done (w', rs') /\ rs = r :: rs'.
 Proof.
-  cbn [Localization.run]. destruct (step w o) as [[w1 r]| |]; cbn [obind]; try discriminate.
-  destruct (run w1 ops) as [[w2 rs']| |]; cbn [obind]; try discriminate.
-  intros H. inversion H; subst. exists w1, r, rs'. repeat split; reflexivity.
+  cbn [Localization.run]. destruct (step w o) as [[w1 r]| |] eqn:S; cbn [obind]; try discriminate.
+  destruct (run w1 ops) as [[w2 rs']| |] eqn:R; cbn [obind]; try discriminate.
+  intros H. inversion H; subst. exists w1, r, rs'. split; [reflexivity|]. split; [exact R | reflexivity].
 Qed.
 
 Lemma run_coherent ops : forall d w w' rs,
@@ -251,7 +254,7 @@ Proof.
   induction ops as [|o ops IH]; intros d w w' rs Hc H.
   - cbn in H. inversion H; subst. constructor.
   - apply run_cons in H as [w1 [r [rs' [Hs [Hr ->]]]]]. constructor.
-    + pose proof (step_result_logged d w o w1 r Hc Hs) as Hl. destruct r; try exact I.
+    + pose proof (step_result_logged d w o w1 r Hc Hs) as Hl. destruct r; try exact Logic.I.
       destruct (run_calls _ _ _ _ Hr) as [extra ->]. apply logged_mono, Hl.
     + eapply IH; [eapply step_coherent; eassumption | exact Hr].
 Qed.
@@ -264,7 +267,7 @@ Proof.
 Qed.
 
 Lemma fresh_coherent ids sync locs : coherent false (fresh ids sync locs).
-Proof. split; cbn; [apply nodup_from_iter | exact I]. Qed.
+Proof. split; cbn; [apply nodup_from_iter | exact Logic.I]. Qed.
 
 (* ---- C18_fresh ---- *)
 Theorem fresh_equiv ops ids sync locs w rs :
@@ -300,11 +303,11 @@ Lemma step_quiet w o w' r b : quiet o = true -> l_bundles B (w_loc B w) = Some b
   match r with RBundles _ b' => b' = b | _ => True end.
 Proof.
   intros Hq E H. destruct o; try discriminate; cbn in H.
-  - inversion H; subst. cbn. repeat split; [exact E | exact I].
+  - inversion H; subst. cbn. repeat split; try exact E.
   - unfold prefetch_sync in H. rewrite (get_bundles_some w b E) in H.
-    destruct (bs_sync B b); cbn in H; [|discriminate]. inversion H; subst. cbn. repeat split; [exact E | exact I].
+    destruct (bs_sync B b); cbn in H; [|discriminate]. inversion H; subst. cbn. repeat split; try exact E.
   - unfold prefetch_async in H. rewrite (get_bundles_some w b E) in H.
-    destruct (bs_sync B b); cbn in H; [discriminate|]. inversion H; subst. cbn. repeat split; [exact E | exact I].
+    destruct (bs_sync B b); cbn in H; [discriminate|]. inversion H; subst. cbn. repeat split; try exact E.
   - rewrite (get_bundles_some w b E) in H. inversion H; subst. repeat split. exact E.
 Qed.
 
@@ -314,7 +317,7 @@ Lemma run_quiet ops : forall w w' rs b, forallb quiet ops = true -> l_bundles B 
   Forall (fun r => match r with RBundles _ b' => b' = b | _ => True end) rs.
 Proof.
   induction ops as [|o ops IH]; intros w w' rs b Hq E H.
-  - cbn in H. inversion H; subst. repeat split; [exact E | constructor].
+  - cbn in H. inversion H; subst. repeat split; try exact E; constructor.
   - cbn in Hq. apply andb_prop in Hq as [Hq1 Hq2]. apply run_cons in H as [w1 [r [rs' [Hs [Hr ->]]]]].
     destruct (step_quiet w o w1 r b Hq1 E Hs) as [E1 [C1 R1]].
     destruct (IH w1 w' rs' b Hq2 E1 Hr) as [E2 [C2 R2]].
